@@ -1,0 +1,66 @@
+//go:build verif
+
+// Copyright 2026 The Scriggo Authors. All rights reserved.
+// Use of this source code is governed by a BSD-style
+// license that can be found in the LICENSE file.
+
+package runtime
+
+// Verification hooks for property C20 (exceeding an implementation limit is
+// an error, never wrong code). Compiled only with the "verif" build tag.
+// Add-only: every function calls the real, unexported decoder.
+
+// VerifC20Call calls the operand decoder of the virtual machine with the
+// given name on args (each converted to the parameter's type) and returns its
+// results as int64s (bools as 0/1).
+func VerifC20Call(name string, args []int64) (res []int64, ok bool) {
+	n := len(args)
+	b := func(v bool) int64 {
+		if v {
+			return 1
+		}
+		return 0
+	}
+	switch name {
+	case "decodeRenderContext":
+		if n != 1 {
+			return nil, false
+		}
+		ctx, inURL, isURLSet := decodeRenderContext(Context(args[0]))
+		return []int64{int64(ctx), b(inURL), b(isURLSet)}, true
+	case "decodeInt16":
+		if n != 2 {
+			return nil, false
+		}
+		return []int64{int64(decodeInt16(int8(args[0]), int8(args[1])))}, true
+	case "decodeUint16":
+		if n != 2 {
+			return nil, false
+		}
+		return []int64{int64(decodeUint16(int8(args[0]), int8(args[1])))}, true
+	case "decodeUint24":
+		if n != 3 {
+			return nil, false
+		}
+		return []int64{int64(decodeUint24(int8(args[0]), int8(args[1]), int8(args[2])))}, true
+	case "decodeValueIndex":
+		if n != 2 {
+			return nil, false
+		}
+		t, i := decodeValueIndex(int8(args[0]), int8(args[1]))
+		return []int64{int64(t), int64(i)}, true
+	case "decodeIndex8":
+		// The index with which stringk reads Values.String from an int8 operand.
+		if n != 1 {
+			return nil, false
+		}
+		vm := &VM{fn: &Function{}}
+		vm.fn.Values.String = make([]string, 256)
+		for i := range vm.fn.Values.String {
+			vm.fn.Values.String[i] = string(rune(0xE000 + i))
+		}
+		s := vm.stringk(int8(args[0]), true)
+		return []int64{int64([]rune(s)[0] - 0xE000)}, true
+	}
+	return nil, false
+}
